@@ -39,6 +39,10 @@ type churnCfg struct {
 	MaxDepth  int      `json:"maxDepth"` // 0 = until fixpoint
 	Workers   int      `json:"workers"`  // >1: the depth-bounded search is split by depth-1 state over that many work items
 	Cost      int      `json:"-"`        // rough seconds per work item, only used to balance the workers
+	// Failover: once per path, while nothing is in flight, the master is replaced by a new state manager over the same
+	// repository; the new manager's watchers deliver the existing live nodes, database configs and shard assignments
+	// as their first events, in any order between the three watchers
+	Failover bool `json:"failover,omitempty"`
 }
 
 const (
@@ -77,6 +81,8 @@ type sys struct {
 	evLive map[int]bool
 	hist   []string
 	rep    *vevid.Report
+	// failedOver: the state manager was replaced once on this path
+	failedOver bool
 }
 
 func nodeKey(id int) string { return constants.GetStorageLiveNodePath(strconv.Itoa(id)) }
@@ -226,6 +232,9 @@ func (s *sys) Canon() string {
 	}
 	sort.Ints(live)
 	fmt.Fprintf(&sb, "L%v E%v R%v", live, s.evLiveList(), s.repoLive())
+	if s.failedOver {
+		sb.WriteString(" failed-over")
+	}
 	dbs := map[string]struct{}{}
 	for _, d := range s.cfg.DBs {
 		dbs[d] = struct{}{}
@@ -356,6 +365,14 @@ func (s *sys) Enabled() []string {
 				}
 			}
 			evs = append(evs, "drop:"+db)
+		}
+	}
+	if s.cfg.Failover && !s.failedOver && s.quiescent() {
+		for _, db := range s.cfg.DBs {
+			if _, has := s.repoAssign(db); has {
+				evs = append(evs, "failover")
+				break
+			}
 		}
 	}
 	if !sync {
@@ -490,6 +507,26 @@ func (s *sys) Apply(ev string) error {
 		_ = s.repo.Put(ctx, constants.GetDatabaseConfigPath(db), js)
 	case "drop":
 		_ = s.repo.Delete(ctx, constants.GetDatabaseConfigPath(p[1]))
+	case "failover":
+		s.sm.Close()
+		s.cancel()
+		nctx, cancel := context.WithCancel(context.Background())
+		s.cancel = cancel
+		s.sm = master.NewStateManager(nctx, s.repo, nil)
+		s.failedOver = true
+		s.evLive = map[int]bool{} // the new manager has seen no node event yet
+		for _, id := range s.repoLive() {
+			s.queues[qNode] = append(s.queues[qNode], &discovery.Event{Type: discovery.NodeStartup, Key: nodeKey(id), Value: nodeVal(id)})
+		}
+		for _, db := range s.cfg.DBs {
+			if v, err := s.repo.Get(ctx, constants.GetDatabaseConfigPath(db)); err == nil {
+				s.queues[qCfg] = append(s.queues[qCfg], &discovery.Event{Type: discovery.DatabaseConfigChanged, Key: constants.GetDatabaseConfigPath(db), Value: v})
+			}
+			if v, err := s.repo.Get(ctx, constants.GetDatabaseAssignPath(db)); err == nil {
+				s.queues[qAssign] = append(s.queues[qAssign], &discovery.Event{Type: discovery.ShardAssignmentChanged, Key: constants.GetDatabaseAssignPath(db), Value: v})
+			}
+		}
+		return nil
 	case "deliver":
 		q := -1
 		for i := range qName {
@@ -684,6 +721,23 @@ func (s *sys) Invariant(_ string, ev string) []vxstate.Finding {
 		}
 	}
 
+	// (4) after a fail-over, once the new manager has received everything: every database that has a config and a
+	// shard assignment in the repository is known to it, with a state for every assigned shard (the state clauses of
+	// (1) then apply to it)
+	if s.failedOver && s.quiescent() {
+		for _, d := range s.cfg.DBs {
+			asg, has := s.repoAssign(d)
+			if !has || s.repoCfg(d) == nil {
+				continue
+			}
+			for id := range asg {
+				if _, ok := st.ShardStates[d][models.ShardID(id)]; !ok {
+					add("failover-database-known", "StorageState.ShardStates", fmt.Sprintf("after the fail-over db %s shard %d (assigned in the repository) has no shard state in the new manager; history %v", d, id, s.hist))
+					break
+				}
+			}
+		}
+	}
 	// (3) synchronous model: whenever nothing is in flight, a database without a config key has no state
 	if s.quiescent() {
 		for _, d := range s.allDBs(st) {
